@@ -3632,7 +3632,8 @@ impl KotoVm {
             "Any" => true,
             "Callable" => value.is_callable(),
             "Indexable" => value.is_indexable(),
-            "Iterable" => value.is_iterable(),
+            // Every map can be iterated by a for loop (by its entries if it has no @iterator / @next)
+            "Iterable" => value.is_iterable() || matches!(value, KValue::Map(_)),
             expected_type => {
                 if value.type_as_string() == expected_type {
                     true
